@@ -114,7 +114,7 @@ static std::vector<CheckDef> g_checks = {
           { "true parallel preemption inside a kernel is not simulated: the argument is that code which never writes static storage has nothing "
             "but caller-owned objects, its own stack and constants to interfere through",
             "std (non-FIPS) build: the self-test verdict is exercised by C17" } },
-        { "C15", "exploration", { { "hashlong", 1 } }, 28, 56, 150, 3000, false, false,
+        { "C15", "exploration", { { "hashlong", 1 }, { "hashjump", -140 } }, 168, 616, 150, 3000, false, false,
           "cases: long-stream workload on every (algorithm, family) pair in turn (run i uses pair i mod 28): up to 4 long clients stream the same "
           "periodic 2 MiB pattern through a 4 GiB aliased window under seeded segmentations (segments up to 2^32-1 bytes, bursts of small "
           "unaligned segments around each threshold) interleaved with short clients; quick crosses 2^29 and 2^32 on all 28 pairs (one long "
@@ -208,6 +208,8 @@ static Sim *get_sim(const std::string &n)
                 s = make_hashgiant_sim();
         else if (n == "hashendure")
                 s = make_hashendure_sim();
+        else if (n == "hashjump")
+                s = make_hashjump_sim();
         else if (n == "l2mgr")
                 s = make_l2mgr_sim();
         else if (n == "stream")
